@@ -153,7 +153,7 @@ fn int_typed<D: Dim<N>, T: IntT, const N: usize>(t: &mut Tape, cx: &mut Cx) -> C
     }
     sample!(cx, "{}<{}> a={:?} b={:?} points={:?}", D::BOX, T::NAME, a, b, pts);
     direct_checks::<D, T, N>(cx, a, b, &pts, &cuts)?;
-    arith_checks::<D, T, N>(cx, ua, ub, &upts, &ucuts, &mk)?;
+    arith_checks::<D, T, N>(cx, ua, ub, &upts, &ucuts, &mk, true)?;
     // element-wise casts next to the limits (`as`: wrapping between integers, rounding to floats)
     macro_rules! cast {
         ($U:ty) => {{
@@ -228,46 +228,87 @@ fn centre_typed<D: Dim<N>, T: IntT, const N: usize>(t: &mut Tape, cx: &mut Cx) -
     cx.set_nontrivial(overflow(&ua));
     sample!(cx, "{}<{}> a={:?} b={:?}", D::BOX, T::NAME, a, b);
     let half_ok = |got: T, twice: i128| Some(got) == mk(twice.div_euclid(2)) || Some(got) == mk(-((-twice).div_euclid(2)));
-    for (ux, x) in [(ua, a), (ub, b)] {
-        let ok = match catch(|| D::center(x)) {
-            Ok(cn) => (0..N).all(|k| half_ok(cn[k], ux.lo[k] + ux.hi[k])).then_some(()).ok_or(format!("{:?}", cn)),
-            Err(m) => Err(format!("panic: {}", m)),
-        };
-        cx.count();
-        if let Err(got) = ok {
-            if overflow(&ux) && cx.known(F_MID) {
-                continue;
+    // what a build without overflow checks returns on an axis whose sum leaves T: the wrapped sum, halved (truncating)
+    let span = max - min + 1;
+    let wrapped = |twice: i128| mk(((twice - min).rem_euclid(span) + min) / 2);
+    // Ok(false): correct; Ok(true): exactly the recorded finding (panic 'attempt to add with overflow', or the wrapped
+    // value, on a box with an axis whose min + max is not representable); Err: anything else
+    let judge = |res: Result<[T; N], String>, ux: &Ub<N>| -> Result<bool, String> {
+        match res {
+            Ok(cn) => {
+                let mut finding = false;
+                for k in 0..N {
+                    let twice = ux.lo[k] + ux.hi[k];
+                    if half_ok(cn[k], twice) {
+                        continue;
+                    }
+                    if mk(twice).is_none() && Some(cn[k]) == wrapped(twice) {
+                        finding = true;
+                    } else {
+                        return Err(format!("{:?}", cn));
+                    }
+                }
+                Ok(finding)
             }
-            let want: Vec<i128> = (0..N).map(|k| (ux.lo[k] + ux.hi[k]).div_euclid(2)).collect();
-            fail!("{}::<{}>::center of {:?} = {}, want {:?} (the centre is representable; min + max is not)", D::BOX, T::NAME, x, got, want);
+            Err(m) if overflow(ux) && m.contains("attempt to add with overflow") => Ok(true),
+            Err(m) => Err(format!("panic: {}", m)),
+        }
+    };
+    for (ux, x) in [(ua, a), (ub, b)] {
+        let want: Vec<i128> = (0..N).map(|k| (ux.lo[k] + ux.hi[k]).div_euclid(2)).collect();
+        cx.count();
+        match judge(catch(|| D::center(x)), &ux) {
+            Ok(false) => {}
+            Ok(true) if cx.known(F_MID) => {}
+            Ok(true) => fail!("{}::<{}>::center of {:?} overflows (panic / wrapped value), want {:?}: the centre is representable, min + max is not", D::BOX, T::NAME, x, want),
+            Err(got) => fail!("{}::<{}>::center of {:?} = {}, want {:?}", D::BOX, T::NAME, x, got, want),
         }
         // the rectangle form (when the extent is representable)
         if (0..N).all(|k| mk(ux.hi[k] - ux.lo[k]).is_some()) {
             let r = Or { pos: x.lo, ext: std::array::from_fn(|k| mk(ux.hi[k] - ux.lo[k]).unwrap()) };
-            let ok = match catch(|| D::r_center(r)) {
-                Ok(cn) => (0..N).all(|k| half_ok(cn[k], ux.lo[k] + ux.hi[k])).then_some(()).ok_or(format!("{:?}", cn)),
-                Err(m) => Err(format!("panic: {}", m)),
-            };
             cx.count();
-            if let Err(got) = ok {
-                if overflow(&ux) && cx.known(F_MID) {
-                    continue;
-                }
-                fail!("{}::<{}>::center of {:?} = {} (the centre is representable; min + max is not)", D::RECT, T::NAME, r, got);
+            match judge(catch(|| D::r_center(r)), &ux) {
+                Ok(false) => {}
+                Ok(true) if cx.known(F_MID) => {}
+                Ok(true) => fail!("{}::<{}>::center of {:?} overflows (panic / wrapped value), want {:?}: the centre is representable, min + max is not", D::RECT, T::NAME, r, want),
+                Err(got) => fail!("{}::<{}>::center of {:?} = {}, want {:?}", D::RECT, T::NAME, r, got, want),
             }
         }
     }
-    // collision vector: both touching translations representable on every axis
+    // collision vector: both touching translations representable on every axis. The centres only choose the side, so
+    // the wrapped outcome is still one of the two translations; the panicking outcome is the finding.
     let cand: [[Option<T>; 2]; N] = std::array::from_fn(|k| [mk(ua.hi[k] - ub.lo[k]), mk(ua.lo[k] - ub.hi[k])]);
     if cand.iter().all(|c| c[0].is_some() && c[1].is_some()) {
-        let ok = match catch(|| D::collision_vector_with_box(a, b)) {
-            Ok(v) => (0..N).all(|k| Some(v[k]) == cand[k][0] || Some(v[k]) == cand[k][1]).then_some(()).ok_or(format!("{:?}", v)),
-            Err(m) => Err(format!("panic: {}", m)),
-        };
         cx.count();
-        if let Err(got) = ok {
-            if !((overflow(&ua) || overflow(&ub)) && cx.known(F_MID)) {
-                fail!("{}::<{}>::collision_vector of {:?} with {:?} = {}, want per axis one of {:?} (both representable)", D::BOX, T::NAME, a, b, got, cand);
+        match catch(|| D::collision_vector_with_box(a, b)) {
+            Ok(v) => {
+                if !(0..N).all(|k| Some(v[k]) == cand[k][0] || Some(v[k]) == cand[k][1]) {
+                    fail!("{}::<{}>::collision_vector of {:?} with {:?} = {:?}, want per axis one of {:?}", D::BOX, T::NAME, a, b, v, cand);
+                }
+            }
+            Err(m) if (overflow(&ua) || overflow(&ub)) && m.contains("attempt to add with overflow") => {
+                if !cx.known(F_MID) {
+                    fail!("{}::<{}>::collision_vector of {:?} with {:?} panics ({}), want per axis one of {:?} (both representable; only min + max of a box is not)", D::BOX, T::NAME, a, b, m, cand);
+                }
+            }
+            Err(m) => fail!("{}::<{}>::collision_vector of {:?} with {:?} panics: {}", D::BOX, T::NAME, a, b, m),
+        }
+        if (0..N).all(|k| mk(ua.hi[k] - ua.lo[k]).is_some() && mk(ub.hi[k] - ub.lo[k]).is_some()) {
+            let ra = Or { pos: a.lo, ext: std::array::from_fn(|k| mk(ua.hi[k] - ua.lo[k]).unwrap()) };
+            let rb = Or { pos: b.lo, ext: std::array::from_fn(|k| mk(ub.hi[k] - ub.lo[k]).unwrap()) };
+            cx.count();
+            match catch(|| D::r_collision_vector_with_rect(ra, rb)) {
+                Ok(v) => {
+                    if !(0..N).all(|k| Some(v[k]) == cand[k][0] || Some(v[k]) == cand[k][1]) {
+                        fail!("{}::<{}>::collision_vector of {:?} with {:?} = {:?}, want per axis one of {:?}", D::RECT, T::NAME, ra, rb, v, cand);
+                    }
+                }
+                Err(m) if (overflow(&ua) || overflow(&ub)) && m.contains("attempt to add with overflow") => {
+                    if !cx.known(F_MID) {
+                        fail!("{}::<{}>::collision_vector of {:?} with {:?} panics ({})", D::RECT, T::NAME, ra, rb, m);
+                    }
+                }
+                Err(m) => fail!("{}::<{}>::collision_vector of {:?} with {:?} panics: {}", D::RECT, T::NAME, ra, rb, m),
             }
         }
     }
@@ -300,6 +341,8 @@ pub trait Scaled: Fl {
     const KMAX: i32;
     /// exponents of the wide-span regime: |e| <= WIDE
     const WIDE: i32;
+    /// 2^MANT units = 2 * 2^(exponent of MAX): the scale of the top-binade regime
+    const KTOP: i32;
     /// n * 2^k, exact for |n| <= 2^MANT and KMIN <= k <= KMAX
     fn units(n: i128, k: i32) -> Self;
 }
@@ -313,6 +356,7 @@ impl Scaled for f64 {
     const KMIN: i32 = -1074;
     const KMAX: i32 = 970;
     const WIDE: i32 = 1000;
+    const KTOP: i32 = 971;
     fn units(n: i128, k: i32) -> f64 {
         ldexp64(n, k)
     }
@@ -323,6 +367,7 @@ impl Scaled for f32 {
     const KMIN: i32 = -149;
     const KMAX: i32 = 103;
     const WIDE: i32 = 120;
+    const KTOP: i32 = 104;
     fn units(n: i128, k: i32) -> f32 {
         ldexp64(n, k) as f32
     }
@@ -340,10 +385,13 @@ fn mixed(t: &mut Tape, mag: u32) -> i128 {
     }
 }
 
+const TOP: &str = "top binade: same-sign coordinates up to MAX (sums overflow, differences do not)";
+
 fn scale_k<F: Scaled>(t: &mut Tape) -> (i32, &'static str) {
     let (lo, hi) = (F::KMIN, F::KMAX);
     let span = hi - lo;
-    match t.below(8) {
+    match t.below(9) {
+        8 => (F::KTOP, TOP),
         0 | 1 | 2 => (-(F::MAG as i32) / 2, "moderate scale"),
         3 => (lo + t.below(4) as i32, "unit = smallest subnormal (+0..3)"),
         4 => (hi - t.below(4) as i32, "largest scale at which every sum stays finite (-0..3)"),
@@ -408,8 +456,34 @@ pub fn scaled_case<D: Dim<N>, F: Scaled, const N: usize>(t: &mut Tape, cx: &mut 
         ucuts.push((k, ua.lo[k] + (ua.hi[k] - ua.lo[k]) / 4 * 2));
         ucuts.push((k, upts[0][k]));
     }
+    if klabel == TOP {
+        // move everything into the last binade(s) below MAX, all of one sign
+        let shift = if t.bool() { 1i128 << (F::MANT - 1) } else { -(1i128 << (F::MANT - 1)) };
+        for x in [&mut ua, &mut ub] {
+            for k in 0..N {
+                x.lo[k] += shift;
+                x.hi[k] += shift;
+            }
+        }
+        for p in upts.iter_mut() {
+            for k in 0..N {
+                p[k] += shift;
+            }
+        }
+        for c in ucuts.iter_mut() {
+            c.1 += shift;
+        }
+    }
     let limit = 1i128 << F::MANT;
-    let mk = move |n: i128| if n.abs() <= limit { Some(F::units(n, kexp)) } else { None };
+    let mk = move |n: i128| {
+        if n.abs() <= limit {
+            let v = F::units(n, kexp);
+            if num_traits::Float::is_finite(v) {
+                return Some(v);
+            }
+        }
+        None
+    };
     let mkp = |p: &[i128; N]| -> [F; N] { std::array::from_fn(|k| mk(p[k]).unwrap()) };
     let (a, b) = (Ob { lo: mkp(&ua.lo), hi: mkp(&ua.hi) }, Ob { lo: mkp(&ub.lo), hi: mkp(&ub.hi) });
     let pts: Vec<[F; N]> = upts.iter().map(|p| mkp(p)).collect();
@@ -421,7 +495,7 @@ pub fn scaled_case<D: Dim<N>, F: Scaled, const N: usize>(t: &mut Tape, cx: &mut 
     cx.set_nontrivial(klabel != "moderate scale" || gap_vs_extent);
     sample!(cx, "{}<{}> unit 2^{}: a={:?} b={:?} points={:?} (in units: a={:?} b={:?})", D::BOX, <F as Dom>::NAME, kexp, a, b, pts, ua, ub);
     direct_checks::<D, F, N>(cx, a, b, &pts, &cuts)?;
-    arith_checks::<D, F, N>(cx, ua, ub, &upts, &ucuts, &mk)?;
+    arith_checks::<D, F, N>(cx, ua, ub, &upts, &ucuts, &mk, false)?;
     // distance_to_point with Pythagorean offsets: exact while the squares neither overflow nor underflow
     if (kexp + 16).abs() <= F::SQ - 16 && ua.valid() {
         // (the first four offsets are planar)
